@@ -118,3 +118,18 @@ Definition py_slice {A} (l : list A) (start stop : option Z) : list A :=
   let a := py_bound n start 0%nat in
   let b := py_bound n stop n in
   firstn (b - a) (skipn a l).
+
+(* ---- guard of the following-axis theorem: a hidden node has only hidden descendants (true for no filter, the
+        library default "tag or text", "tags only"; false e.g. for "text only") ---- *)
+Definition up_closed_b (D : nfilter) (t : itree) : bool :=
+  forallb (fun s => D (iid s) || forallb (fun x => negb (D x)) (ids s)) (subtrees t).
+(* what `_iterate_following` reaches below a node: it descends through `first_child`, which skips hidden children at
+   the front, but then moves on with the unfiltered `_fetch_following_sibling` *)
+Definition wgo (D : nfilter) (rec : itree -> list nid) :=
+  fix go (l : list itree) (started : bool) : list nid :=
+    match l with
+    | [] => []
+    | k :: r => if started || D (iid k) then iid k :: rec k ++ go r true else go r false
+    end.
+Fixpoint wdesc (D : nfilter) (s : itree) : list nid :=
+  match s with INode _ _ kids => wgo D (wdesc D) kids false end.
